@@ -1,4 +1,4 @@
 From Coq Require Import Extraction ExtrOcamlBasic.
 From OV Require Import Common.Base C02.Model C02.Proofs C02.HeadSafe.
 Extraction Language OCaml.
-Extraction "C02_model.ml" step init_state new_pool new_sess holds Repaired Head Defective v6bound safe_step.
+Extraction "C02_model.ml" step init_state new_pool new_sess holds Repaired Head Defective v6bound safe_step cfg_valid.
